@@ -10,6 +10,11 @@ from common import *
 MUTATORS = {"append", "extend", "pop", "sort", "update", "setdefault", "insert", "remove", "clear", "add", "discard", "popitem", "reverse", "__setitem__", "__delitem__"}
 
 
+PROCESS_GLOBAL_CALLS = {"sys.setrecursionlimit", "sys.setswitchinterval", "sys.settrace", "sys.setprofile", "gc.disable", "gc.enable", "gc.freeze",
+                        "signal.signal", "signal.setitimer", "signal.alarm", "locale.setlocale", "random.seed", "os.chdir", "os.putenv", "os.umask",
+                        "warnings.simplefilter", "warnings.filterwarnings", "threading.setprofile", "threading.settrace", "re.purge"}
+
+
 def self_attr(n):
     return n.attr if isinstance(n, ast.Attribute) and isinstance(n.value, ast.Name) and n.value.id == "self" else None
 
@@ -157,6 +162,9 @@ def global_writes(tree, modname):
                     base = base.value
                 if isinstance(base, ast.Name) and (is_outliving(base.id) or base.id in classes or base.id == "cls"):
                     out.append(f"{modname}.{qual}: mutates {ast.unparse(n.func.value)} via .{n.func.attr}")
+            # calls that change process-wide interpreter state
+            if isinstance(n, ast.Call) and ast.unparse(n.func) in PROCESS_GLOBAL_CALLS:
+                out.append(f"{modname}.{qual}: calls {ast.unparse(n.func)}")
             if isinstance(n, ast.Call) and isinstance(n.func, ast.Name) and n.func.id == "setattr" and n.args:
                 a0 = n.args[0]
                 if not (isinstance(a0, ast.Name) and a0.id == "self"):
